@@ -238,5 +238,7 @@ def run(ctx):
                        'comparison scripted by the analyser; this proves they are a fold-minimum over exactly the 3^k candidates of the periodic directions, for all 8 settings. '
                        'Wrapper broadcasting and box/pbc pairing are decided by evaluation with the kernel replaced by the direct separation. '
                        'Not decided: the nearest-image theorem itself (a property of the 27-candidate minimum, not of the code).')
+    from .. import readonly
     ctx.run_rules([lambda c: minfold(c, DV, 'dvect_c', True), lambda c: minfold(c, DM, 'dmag2_c', False),
-                   lambda c: wrapper(c, DV, 'dvect', 'dvect_c', True), lambda c: wrapper(c, DM, 'dmag', 'dmag2_c', False), pairing])
+                   lambda c: wrapper(c, DV, 'dvect', 'dvect_c', True), lambda c: wrapper(c, DM, 'dmag', 'dmag2_c', False), pairing,
+                   lambda c: readonly.rule(c, DV, floor=2) and None, lambda c: readonly.rule(c, DM, floor=2) and None])
